@@ -491,8 +491,8 @@ def run(ctx: Context) -> None:
         for r in rets:
             v = flow.resolve(r.value)
             if isinstance(v, ast.Attribute) and v.attr == 'convention':
-                g = enclosing_ifs(acc, r)
-                ok_bound = any(inb and norm_text(st.test) == f"{norm_text(v)} is not None" for st, inb in g)
+                from .common import facts as _facts11
+                ok_bound = (f"{norm_text(v)} is None", False) in _facts11(ctx, acc, r, expand=False)
                 sv = flow.resolve(v.value)
                 ok_bound = ok_bound and isinstance(sv, ast.Call) and norm_text(sv.func) == 'State.get' \
                     and flow.canon(sv.args[0]) == ('param', acc.params[0])
@@ -510,8 +510,8 @@ def run(ctx: Context) -> None:
         ctx.check('R11.4', ok_new, "otherwise it constructs the detected convention for this dataset, binds it, and returns that same object", acc, acc.node,
                   construct='convention = convention_class(dataset); convention.bind(); return convention')
         raises = [n for n in walk_no_nested(acc.node) if isinstance(n, ast.Raise)]
-        ok_r = any(any(inb and isinstance(st.test, ast.Compare) and isinstance(st.test.ops[0], ast.Is) and is_none(st.test.comparators[0])
-                       for st, inb in enclosing_ifs(acc, rs)) for rs in raises)
+        from .common import facts as _facts11b
+        ok_r = any(any(pol and t.endswith(' is None') and not t.endswith('.convention is None') for t, pol in _facts11b(ctx, acc, rs, expand=False)) for rs in raises)
         ctx.check('R11.4', ok_r, "a dataset nothing matches is refused with an error", acc, raises[0] if raises else acc.node,
                   construct='if convention_class is None: raise')
         # registration of the state accessor: exactly one place
